@@ -5,7 +5,8 @@ import penman
 from penman.exceptions import DecodeError
 
 from pv.gen import strings, texts, trees
-from pv.harness import Enum, Hyp
+from pv.gen import corpus
+from pv.harness import Enum, Fuzz, Hyp
 from pv.props.c08 import split_keepends
 from pv.props.common import short
 from pv.ref import lex as rlex
@@ -224,6 +225,16 @@ def _stratom_cases(ch):
             yield c
 
 
+def _fuzz_decode(data):
+    # first byte selects the entry point family; the rest is the text
+    if not data:
+        return None
+    text = data[1:].decode('utf-8', 'ignore')
+    if data[0] % 4 == 3:
+        return {'s': text, 'k': 'triples'}
+    return {'s': text}
+
+
 def stages(tier):
     L = 5 if tier == 'quick' else 6
     return [
@@ -244,4 +255,6 @@ def stages(tier):
              'every string of length <= 5 (quick) / 7 (thorough) over quote, backslash, a, blank, n placed as target, concept, bare text and '
              'conjunction target (terminated, unterminated, escaped quotes and backslashes in every position)'),
         Hyp('random', _random, 7000, 300000),
+        Fuzz('coverage-guided-bytes', 0, 3000000, decode=_fuzz_decode, seeds=corpus.test_strings(), dictionary=corpus.DICTIONARY, max_len=120),
+        Fuzz('coverage-guided-bytes-empty-corpus', 0, 1000000, decode=_fuzz_decode, seeds=None, dictionary=None, max_len=64, shards=8),
     ]
